@@ -130,7 +130,7 @@ Section Lit.
     lrun st (String " " (String "E" (String "'" EmptyString))) = (LStr true EmptyString, ts0).
   Proof.
     intro H. destruct st; cbn [close] in H; try discriminate;
-      try (destruct acc; [discriminate|]); injection H as <-; cbn; rewrite ?app_nil_r; reflexivity.
+      try (destruct ne; [|discriminate]); injection H as <-; cbn; rewrite ?app_nil_r; reflexivity.
   Qed.
 
   (* what follows a closed literal: the first non-blank character is not a quote *)
@@ -289,6 +289,9 @@ Section Num.
     unfold pg_lex, lex_from. cbn [lrun]. unfold lstep at 1. rewrite Hz. unfold start. rewrite Hs, Hi, Hc.
     rewrite (lrun_digits r _ Hr). reflexivity.
   Qed.
+
+  Lemma expand_cons_str s t : expand_ops (TStr s :: t) = TStr s :: expand_ops t.
+  Proof. reflexivity. Qed.
 
   Lemma lex_neg_digits c r :
     all_digits (String c r) = true ->
